@@ -33,7 +33,8 @@ prop(
 
 GRAPH_RULE = ("multi-document reference graphs from gen.Graph: 1-5 documents at file/http/https URLs in different directories (incl. the prefix-confusable root.json2), "
               "definitions/parameters/responses/path items with hostile names, schema trees over every sub-schema keyword, $ref holes wired to any position of the right kind "
-              "(multi-hop chains, back references, ancestors => cycles) and spelled fragment-only / relative / ./ / absolute. ")
+              "(multi-hop chains, back references, ancestors => cycles) and spelled fragment-only / relative / ./ / root-relative / absolute (also non-canonically, and with minimal percent-escaping); "
+              "names equal up to case or to trailing white space; documents that are plain schemas or JSON arrays; in 20% of the graphs a twin document (same pointers, other labels, some $refs redirected to it). ")
 
 prop(
     "C02",
@@ -88,7 +89,7 @@ prop(
     "C04",
     title="Expansion terminates without crashing on every reference graph",
     technique="property-based testing (rapid) with process isolation: each generated expansion job runs in a worker subprocess under a bounded stack; outcome must be result-or-error, work (hooked step counter) bounded by the reference model's acyclic unfolding size; plus exhaustive enumeration of small reference graphs",
-    rule=GRAPH_RULE + "C04 knobs: cycle bias 25%, ids (absolute, relative file, fragment) on 17% of schemas in 35% of graphs, faults (dangling / ill-typed targets, refused documents) in 40% of graphs, all seven entry points, all combinations of SkipSchemas/ContinueOnError/AbsoluteCircularRef. Non-trivial = the graph is cyclic, carries an id or has a refused document; distinct by hash of the case. Exhaustive part: see coverage.exhaustive_note",
+    rule=GRAPH_RULE + "C04 knobs: cycle bias 25%, ids (absolute, relative file, fragment) on 17% of schemas in 35% of graphs, faults (dangling / ill-typed targets, absent members of every nil kind, index-like tokens that designate nothing, refused documents; a third of the broken graphs carry a single kind, densely) in 40% of graphs, a sweep of up to 24 dangling index-like pointers below list members of every root (ExpandSchema and ResolveRef, typed and generic root), all seven entry points, all combinations of SkipSchemas/ContinueOnError/AbsoluteCircularRef. Non-trivial = the graph is cyclic, carries an id or has a refused document; distinct by hash of the case. Exhaustive part: see coverage.exhaustive_note",
     exhaustive_note="every digraph on <=2 (quick) / <=3 (thorough) nodes x placement of the $ref under each sub-schema keyword x entry kind of node 0 x same/other document x id variants x the 4 SkipSchemas/ContinueOnError combinations, run through ExpandSpec and the single-element entry point of node 0",
     design_ref="DESIGN.md §4 C04",
     level_text="exploration + exhaustive enumeration of a bounded space: termination, absence of panics/stack overflows and a work bound are observed per job in an isolated worker (16 MiB stack), so a runaway recursion is a deterministic, attributable outcome",
@@ -178,7 +179,7 @@ prop(
     "C12",
     title="$ref targets are located as RFC 3986 reference resolution prescribes",
     technique="exhaustive enumeration over a bounded alphabet plus property-based testing (rapid); differential oracle: the URL the document loader receives vs net/url's RFC 3986 ResolveReference of the $ref against the URL of the containing document",
-    rule="exhaustive: references of 1-3 segments over {a, b.json, ., .., c%20d, é, x.y, %41, e%25f} x prefix {relative, ./, root-relative /} x fragment {none, pointer} x 6 file/http/https bases at depth 0-2, each observed twice: through ResolveRefWithBase (base = RelativeBase) and through ExpandSpec with the $ref sitting in a document imported from another root (base = that document's URL); plus empty, fragment-only and absolute references. Random: up to 8 segments from a larger alphabet, ../ prefixes, non-ASCII and escaped bases, absolute refs in any case with default ports and duplicate slashes. Excluded with reasons: references designating a directory (last segment . or .., trailing /), %2F/%2E (escapes of delimiters), queries. Non-trivial = reference contains .., an escape or non-ASCII; distinct by hash of base+ref+observer",
+    rule="exhaustive: references of 1-3 segments over {a, b.json, ., .., c%20d, é, x.y, %41, e%25f, ..a, ...} x prefix {relative, ./, root-relative /} x fragment {none, pointer} x 8 file/http/https bases at depth 0-2 (two without file extension), plus every base under the other scheme/host/port with the same path, each through three observers (the third: last hop of a parameter chain inside an imported path item; in the ExpandSpec observer the content found behind a fragment-only hop inside the designated document is checked too): ResolveRefWithBase (base = RelativeBase), ExpandSpec with the $ref sitting in a document imported from another root (base = that document's URL), and the chain; plus empty, fragment-only and absolute references. Random: up to 8 segments from a larger alphabet, ../ prefixes, non-ASCII and escaped bases, absolute refs in any case with default ports and duplicate slashes. Excluded with reasons: references designating a directory (last segment . or .., trailing /), %2F/%2E (escapes of delimiters), queries. Non-trivial = reference contains .., an escape or non-ASCII; distinct by hash of base+ref+observer",
     exhaustive_note="all 29,484 (reference, base) pairs of the bounded alphabet minus the excluded directory references, x 2 observers, in every run of either tier",
     design_ref="DESIGN.md §4 C12",
     level_text="exhaustive over the bounded alphabet (every run) + exploration of longer references: the single URL handed to the loader must equal the standard resolution with the fragment removed, compared as URLs (scheme, host, decoded path); a reference designating the containing document itself must cause no other request",
@@ -239,7 +240,7 @@ prop(
     "C16",
     title="Calls share no hidden state",
     technique="stateful property-based testing (rapid): generated histories of expansion/resolution calls over a mutable in-memory document store whose documents change content (same URLs) between calls; invariant after every call = model oracle on the store as it is now + loader traffic equals the model's reachable documents + built-in meta-schemas still equal to the embedded assets; differential re-execution of sampled calls in a fresh worker process",
-    rule="2-3 variants of a multi-document graph over the same URL pool (same root URL, hence the same pseudo root), every content label prefixed with its variant so stale content is visible; histories of 3-13 steps drawn from: switch the store to another variant, ExpandSpec of variant v's root (AbsoluteCircularRef drawn), a base-location single-element expansion, a resolution into the built-in Swagger 2.0 / draft-4 meta-schemas; none of the calls gets a cache; in 15% of the histories every acyclic call is re-run in a fresh process. Non-trivial = the documents changed between two calls that read them; distinct by hash of the history",
+    rule="2-3 variants of a multi-document graph over the same URL pool (same root URL, hence the same pseudo root), every content label prefixed with its variant so stale content is visible; histories of 3-13 steps drawn from: switch the store to another variant, ExpandSpec of variant v's root (AbsoluteCircularRef drawn), a base-location single-element expansion, a resolution into the built-in Swagger 2.0 / draft-4 meta-schemas, the expansion of a $ref-free schema whose root declares an `id` (relative, same scheme and host as the documents, elsewhere); none of the calls gets a cache; the option structure passed in must compare equal to a copy taken before the call and remaining cut-point $refs must be spelled as a call without history spells them; in 15% of the histories every acyclic call is re-run in a fresh process. Non-trivial = the documents changed between two calls that read them; distinct by hash of the history",
     design_ref="DESIGN.md §4 C16",
     level_text="exploration over histories: a result is compared with what the documents hold at the time of the call (bisimulation with uniquely labelled content), so anything learnt from an earlier call and wrongly reused shows up as a label of the wrong variant; the set of URLs requested during the call must equal the documents reachable from its arguments (nothing served from an earlier call); the meta-schemas are resolved with a loader that refuses everything and compared with freshly decoded embedded assets",
     level_note="the root document passed in memory is also what the loader serves under the root URL during that call; histories are bounded (<= 13 steps) - hidden state that needs a longer history to manifest is out of reach",
@@ -251,7 +252,7 @@ prop(
     "C17",
     title="Concurrent use on independent data is race-free with sequential answers",
     technique="property-based testing (rapid) of generated concurrency plans executed under the Go race detector (binary built with -race, GORACE=halt_on_error=1): N goroutines x op lists over ExpandSpec on own decodes, ExpandSchema with own / no / one shared cache, ExpandSchema and Resolve against a shared read-only typed root, json.Marshal and pointer lookups on a shared document; every concurrent result compared with the same op run alone; 12% of the plans run in a fresh process so that lazily initialised package state is first used concurrently",
-    rule="plans: 2/4/8/16 goroutines, 1-4 ops each, GOMAXPROCS in {1,2,4,16}, 0-3 runtime.Gosched() calls before each op, over a generated multi-document graph (<=3 documents). Non-trivial = at least two ops touch shared data (the shared cache, the shared typed root or document); distinct by hash of the plan",
+    rule="plans: 2/4/8/16 goroutines, 1-4 ops each, GOMAXPROCS in {1,2,4,16}, 0-3 runtime.Gosched() calls before each op, over a generated multi-document graph (<=3 documents) whose root always holds array parameters and array headers with nested items; 35% of the plans have a second set of documents under the same URLs served by another (slow) loader to the odd goroutines, 40% share one ExpandOptions value per set among all goroutines; further ops: expansion of schemas whose id or base location is not a URL. Non-trivial = at least two ops touch shared data (the shared cache, the shared typed root or document); distinct by hash of the plan",
     design_ref="DESIGN.md §4 C17",
     level_text="exploration of op mixes, not of interleavings: the race detector is sound for the happens-before relation of the executed run, so what the generator varies and the evidence reports is which operations run against which shared data; results must equal the sequential ones (bytes when the element is acyclic and the call succeeds, error-ness always); a plan that does not finish within 90 s is reported as a deadlock",
     level_note="the harness cannot own the Go scheduler: a race that needs an interleaving which never occurs in the executed runs is missed, and a schedule-dependent failure is not shrunk (the plan in flight when the detector stops the process is the replay; the replay command re-runs it up to 20 times)",
